@@ -103,6 +103,42 @@ def run(tier):
                         checks.append(("absent", i, len(ops) - 4))
                 scripts.append("Q " + " ".join(ops))
                 meta.append((checks, mtxt))
+        # keys nested up to the reader's limit (the property names nesting <= 64): every level shape that equality descends through - set member, map key,
+        # map value, vector / list element, tag - at depths around every plausible recursion budget (50, 64, 100 minus the container's own levels)
+        def deep(shape, d, leaf):
+            t = leaf
+            for lvl in range(d):
+                sh = shape if shape != "mixed" else ("set", "mapkey", "vec", "mapval", "list", "tag")[lvl % 6]
+                if sh == "set":
+                    t = b"#{" + t + b"}"
+                elif sh == "mapkey":
+                    t = b"{" + t + b" :v}"
+                elif sh == "mapval":
+                    t = b"{:k " + t + b"}"
+                elif sh == "vec":
+                    t = b"[" + t + b"]"
+                elif sh == "list":
+                    t = b"(" + t + b")"
+                else:
+                    t = b"#t " + t
+            return t
+        for shape in ("set", "mapkey", "mapval", "vec", "list", "tag", "mixed"):
+            for d in ((1, 10, 33, 49, 50, 51, 52, 63, 64, 65, 90, 97) if tier == "quick" else range(1, 98)):
+                k0, k1 = deep(shape, d, b"1"), deep(shape, d, b"2")
+                mtxt = b"{" + k0 + b" :first " + k1 + b" :second}"
+                stxt = b"#{" + k0 + b" " + k1 + b"}"
+                for hist in ([], ["h:0", "h:2"]):
+                    ops = ["r0=%s" % C.hexs(mtxt), "r2=%s" % C.hexs(stxt)] + hist
+                    checks = []
+                    for i, kt in enumerate((k0, k1)):
+                        ops += ["r1=%s" % C.hexs(kt), "lk:0:1", "ck:0:1", "t:0.%d" % (2 * i + 1), "sc:2:1"]
+                        checks.append(("present", i, len(ops) - 5))
+                    ab = deep(shape, d, b"3")
+                    ops += ["r1=%s" % C.hexs(ab), "lk:0:1", "ck:0:1", "sc:2:1"]
+                    checks.append(("absent", 0, len(ops) - 4))
+                    scripts.append("Q " + " ".join(ops))
+                    meta.append((checks, mtxt))
+                    rep.count("deep-keys/%s/%s" % (shape, cfg))
         # strings whose escapes cannot be decoded in this configuration are compared by their raw text: different texts stay different
         raws = [b"\"C:\\work\"", b"\"D:\\data\"", b"\"D:\\data\\x\"", b"\"\\q\"", b"\"\\q1\"", b"\"a\\zb\"", b"\"\\\"", b"\"ok\""]
         raws = [r_ for r_ in raws if r_ != b"\"\\\""]
